@@ -359,6 +359,7 @@ func (f *frame) chanRecv(i *ssa.UnOp, ch Value, n *node, st *State) *State {
 	}
 	val, ok := f.chanRecvOp(ch, st)
 	f.x.assume(st.pc, Implies(ok, f.chanInvTerm(i.X, val, n, st)), "channel content invariant")
+	f.onClosed(i.X, ok, n, st)
 	if i.CommaOk {
 		f.setReg(i, n.Ctx, Value{T: i.Type(), C: append(append([]*Term{}, val.C...), ok)})
 	} else {
@@ -435,6 +436,7 @@ func (f *frame) selectStmt(i *ssa.Select, n *node, st *State) *State {
 			recvOk = ok
 			recvVals = v.C
 			x.assume(b.pc, Implies(ok, f.chanInvTerm(s.Chan, v, n, b)), "channel content invariant")
+			f.onClosed(s.Chan, ok, n, b)
 		} else {
 			sv := f.get(s.Send, n, b)
 			if g := f.chanInvTerm(s.Chan, sv, n, b); !g.IsTrue() {
@@ -576,4 +578,21 @@ func (x *Exec) isClosable(v ssa.Value) bool {
 		}
 	}
 	return x.closeSites[fld]
+}
+
+// onClosed: rely facts declared for a receive that found the channel closed.
+func (f *frame) onClosed(chv ssa.Value, ok *Term, n *node, st *State) {
+	c := f.x.C
+	if c == nil || len(c.OnClosed) == 0 {
+		return
+	}
+	fld := chanField(chv)
+	if j := strings.LastIndex(fld, "."); j >= 0 {
+		fld = fld[j+1:]
+	}
+	for _, cl := range c.OnClosed[fld] {
+		sc := f.x.newSpecCtx(f, n, st, f.x.entryState)
+		f.x.assume(And(st.pc, Not(ok)), sc.evalBool(cl.Expr), "rely: "+cl.Text)
+		f.x.note("rely: when " + fld + " is found closed: " + cl.Text)
+	}
 }
